@@ -15,7 +15,7 @@ ID = "C18"
 LEVEL = "exploration"
 RULE = (
     "case = n in 2..4 concurrent send_message callers (own ids, own timeouts) on one (read, write) pair + the server's answers as a list of "
-    "(instant, caller index) in any order on a virtual-time grid around the 0.5 s poll boundaries + 0..2 unrelated notifications placed between answers; "
+    "(instant, caller index) in any order on a virtual-time grid around the 0.5 s poll boundaries, each a result or an error, as the unified or the typed envelope class + 0..2 unrelated notifications placed between answers; "
     "n<=3 enumerated exhaustively (all answer permutations x 5 instants per answer x 3 notification patterns), n=4 drawn by Hypothesis; "
     "a recording proxy logs which caller task dequeued which item; non-trivial = answer order differs from request order or a notification sits between two answers; "
     "distinct = distinct full case"
@@ -46,11 +46,13 @@ def check(case: Dict[str, Any]) -> Outcome:
 
     schedule: List[Tuple[float, Any]] = []
     seq: List[Tuple[float, int, str]] = []
+    typed = set(case.get("typed", []))  # answers delivered as the specific envelope classes instead of the unified one
     for k, (t, i) in enumerate(answers):
+        form = {"$form": "typed"} if i in typed else {}
         if i in err_for:
-            schedule.append((t / 100.0, {"jsonrpc": "2.0", "id": f"c{i}", "error": {"code": -32000 - i, "message": f"for c{i}"}}))
+            schedule.append((t / 100.0, {"jsonrpc": "2.0", "id": f"c{i}", "error": {"code": -32000 - i, "message": f"for c{i}"}, **form}))
         else:
-            schedule.append((t / 100.0, {"jsonrpc": "2.0", "id": f"c{i}", "result": {"for": f"c{i}", "k": k}}))
+            schedule.append((t / 100.0, {"jsonrpc": "2.0", "id": f"c{i}", "result": {"for": f"c{i}", "k": k}, **form}))
         seq.append((t / 100.0, k, "a"))
     for j, t in enumerate(notifs):
         schedule.append((t / 100.0, {"jsonrpc": "2.0", "method": "notifications/message", "params": {"level": "info", "data": j}}))
@@ -174,6 +176,16 @@ def job_exhaustive(col: Collector, seed: int, tier: str, shard: int, nshards: in
                         notifs = [ts[0], ts[-1] - 1 if ts[-1] > ts[0] else ts[0]]
                     case = {"n": n, "timeouts": [200] * n, "answers": answers, "notifs": notifs}
                     col.record(case, check(case))
+    # answer kinds and message classes: each caller's answer is a result or an error, unified or typed class
+    for perm in itertools.permutations(range(2)):
+        for inst in itertools.product([10, 50, 60], repeat=2):
+            for kinds in itertools.product(range(4), repeat=2):
+                i += 1
+                if i % nshards != shard:
+                    continue
+                case = {"n": 2, "timeouts": [200, 200], "answers": [[inst[k], perm[k]] for k in range(2)], "notifs": [],
+                        "errors": [c for c in range(2) if kinds[c] & 1], "typed": [c for c in range(2) if kinds[c] & 2]}
+                col.record(case, check(case))
     # staggered lifetimes: caller 2 joins at t=0.30 after an earlier caller may have completed
     for perm in itertools.permutations(range(3)):
         for inst in itertools.product([10, 20, 40, 60, 90], repeat=3):
@@ -184,7 +196,7 @@ def job_exhaustive(col: Collector, seed: int, tier: str, shard: int, nshards: in
             case = {"n": 3, "timeouts": [200, 200, 200], "starts": [0, 0, 30], "answers": answers, "notifs": []}
             col.record(case, check(case))
     if shard == 0:
-        col.exhaustive_parts.append("n in {2,3}: all answer permutations x instants {0.10,0.49,0.50,0.51,0.90}^n x 3 notification patterns, timeouts 2.0 s; plus 3 callers with the third joining at t=0.30: all permutations x 5^3 instants")
+        col.exhaustive_parts.append("n in {2,3}: all answer permutations x instants {0.10,0.49,0.50,0.51,0.90}^n x 3 notification patterns, timeouts 2.0 s; plus 2 callers x {result, error} x {unified, typed class} per answer x 2 orders x 3^2 instants; plus 3 callers with the third joining at t=0.30: all permutations x 5^3 instants")
 
 
 @st.composite
@@ -197,6 +209,8 @@ def cases(draw):
     notifs = draw(st.lists(tgrid, max_size=2))
     errors = [i for i in range(n) if draw(st.integers(0, 4)) == 0]
     case = {"n": n, "timeouts": timeouts, "answers": answers, "notifs": notifs, "errors": errors}
+    if draw(st.integers(0, 2)) == 0:
+        case["typed"] = [i for i in range(n) if draw(st.booleans())]
     if draw(st.booleans()):
         starts = [0] + [draw(st.sampled_from([0, 0, 15, 30, 55, 80])) for _ in range(n - 1)]
         case["starts"] = starts
